@@ -48,6 +48,12 @@ def _worker(arg):
                                                                if isinstance(v, (int, str, float, bool))}}
             if vc.expect == 'sat':
                 v, _ = solve.satisfiable(vc.pc)
+                if v == 'unknown':
+                    # satisfiability of quantified assumptions cannot be shown; at least look for a contradiction
+                    # with the configuration that proves the obligations (canary: "false" must not be provable)
+                    import z3 as _z3
+                    if solve.ematch_check(vc.pc, _z3.BoolVal(True), timeout_ms=4000, auto_config=False) == 'unsat':
+                        v = 'unsat'
                 rec.update(verdict={'sat': 'covered', 'unsat': 'vacuous', 'unknown': 'cover-unknown'}[v],
                            backend='z3', ms=0)
                 out['vcs'].append(rec)
@@ -152,10 +158,18 @@ def main(argv=None):
         return EXIT_CRASH
     jobs = [(prop, c.id, a.tier, a.record_baseline) for c in checks]
     results = []
+    native_box = {}
+    nt = None
+    if not a.only:
+        import threading
+        nt = threading.Thread(target=lambda: native_box.update(r=run_native_checks(prop, a.tier, seed)))
+        nt.start()     # the native checks mostly wait for sockets: run them beside the solver pool
     if jobs:
         with mp.get_context('fork').Pool(min(a.jobs, len(jobs))) as pool:
             results = pool.map(_worker, jobs, chunksize=1)
-    native = run_native_checks(prop, a.tier, seed) if not a.only else []
+    if nt is not None:
+        nt.join()
+    native = native_box.get('r', []) if not a.only else []
     return report(prop, a, checks, results, native, seed, t0)
 
 
